@@ -441,7 +441,7 @@ class Tr:
                 if v.kind != kind:
                     raise self.err(f"argument {p} of {fn} has kind {v.kind}, expected {kind}")
                 args.append(v.term)
-        return V(h["ret"], f"(gen_{fn} {' '.join(args)})")
+        return V(h["ret"], f"(gen_{fn}{getattr(self, 'helper_prefix', '')} {' '.join(args)})")
 
     # ---- statements ------------------------------------------------------------------------------------
     def guard(self, st, env):
@@ -588,6 +588,7 @@ def translate_make_incompressible(tree, helpers):
         raise TranslationError("make_incompressible: inverse transform / return")
     env = {"derivative_operator": V(DVEC, "d"), "incompressible_field_hat": V(DVEC, "u")}
     tr = Tr("make_incompressible", env, helpers, "d", allow_raise=False)
+    tr.helper_prefix = " K"
     out = tr.block(list(mid[3:-2]) + [ast.parse("return incompressible_field_hat").body[0]], env)
     if out.kind != DVEC:
         raise TranslationError("make_incompressible: result kind " + out.kind)
@@ -613,6 +614,7 @@ def translate_poisson(helpers):
         raise TranslationError("Poisson.__init__: _inv_operator")
     env = {"derivative_operator": V(DVEC, "d"), "order": V(NAT, "order")}
     tr = Tr("Poisson.__init__", env, helpers, "d", allow_raise=False)
+    tr.helper_prefix = " K"
     inv = tr.block([ib[-2], ast.Return(value=last.value)], env)
     if inv.kind != CH1:
         raise TranslationError("Poisson._inv_operator kind " + inv.kind)
@@ -774,8 +776,6 @@ def generate():
         text, info = translate_helper(find_func(tree.body, h), helpers)
         helpers[h] = info
         parts.append(text)
-    parts.append(translate_make_incompressible(tree, helpers))
-    parts.append(translate_poisson(helpers))
     classes = stepper_classes()
     unknown = sorted(set(classes) - set(COVER) - set(EXCLUDED))
     if unknown:
@@ -795,6 +795,38 @@ def generate():
     parts.append("(* covered: " + ", ".join(covered) + " *)")
     parts.append("(* excluded: " + "; ".join(f"{k} ({v})" for k, v in EXCLUDED.items()) + " *)")
     return "\n".join(parts) + "\n", covered
+
+
+OUT_OPS = os.path.join(os.path.dirname(OUT), "OperatorsGen.v")
+
+
+def generate_operators():
+    """Gen/OperatorsGen.v (C10: make_incompressible, C05: Poisson), kept apart from Gen/LinOps.v so that a change there does not break the
+    symbol tie of the steppers; the two parts are independent: a part that cannot be translated is left out (its theorem then fails)"""
+    tree = ast.parse(open(os.path.join(REPO, "exponax/_spectral.py")).read())
+    helpers = {}
+    for h in HELPERS:
+        helpers[h] = translate_helper(find_func(tree.body, h), helpers)[1]
+    parts = ["(* GENERATED by harness/translate/linops.py from exponax/_spectral.py (make_incompressible) and exponax/_poisson.py -- do not edit. *)",
+             "From Coq Require Import ZArith QArith List Bool.", "From EXV Require Import Base.Scalar Spectral.Symbols Gen.LinOps.",
+             "Import ListNotations.", "Local Open Scope fld_scope.", "", "Section GenOperators.", "  Variable K : Ops."]
+    errors = {}
+    for name, fn in (("make_incompressible", lambda: translate_make_incompressible(tree, helpers)), ("poisson", lambda: translate_poisson(helpers))):
+        try:
+            parts.append(fn())
+        except Exception as e:
+            errors[name] = f"{type(e).__name__}: {e}"
+            parts.append("  (* " + name + ": TRANSLATION FAILED: " + errors[name].replace("(*", "( *").replace("*)", "* )") + " *)")
+    parts.append("End GenOperators.")
+    return "\n".join(parts) + "\n", errors
+
+
+def run_operators(require=("make_incompressible", "poisson")):
+    text, errors = generate_operators()
+    write_if_changed(OUT_OPS, text)
+    bad = [f"{k}: {v}" for k, v in errors.items() if k in require]
+    if bad:
+        raise TranslationError("; ".join(bad))
 
 
 def run():
